@@ -25,7 +25,10 @@
   Not covered (stated residue): a crash *inside* one `PersistentData.write_file` call (torn file), and a
   crash (or Ctrl-C) between the server's answer to `create_job`/`rerun_job` and the file write that follows it.
   Sections 7 and 8 (added later) bring `get_results`, `track_progress`, Ctrl-C in status requests and sleeps,
-  deletion and listing into the same statements.
+  deletion and listing into the same statements.  Sections 9 and 10 treat those two stopping points in models of
+  their own (torn writes; `crashAfterAnswer`, all launch modes).  Section 11: two `JobGroup` objects of one name —
+  the re-open discipline under which they are one object (proved), the last-writer law of `add` (proved), and
+  witnesses for what is lost without the discipline; for undisciplined histories nothing else is proved.
 -/
 import PercevalModel.Lemmas.C19
 import PercevalModel.Lemmas.C19TW
@@ -869,6 +872,27 @@ theorem stale_object_write_loses_accepted_id :
     t.cur.disk = some (t.cur.mem.map toDict) ∧ (t.other.map (·.map (·.id))) = some [some 0] ∧
     t.cur.mem.map (·.id) = [none] ∧
     (t'.cur.disk.map (·.map (·.id))) = some [some 0, none] := by decide
+
+/-- **add_makes_file_the_adders_list** (the last writer wins, as a law of `add`; no discipline, no reachability
+hypothesis).  In ANY state of the two objects — whatever interleaving led to it, whatever the file holds — an
+`add` by either object that returns normally leaves the file equal to the image of THAT object's list: everything
+the other object saved since the adder loaded its list is gone from the file.  (`dir`: the `job_group` directory
+exists, which every constructor of the repaired code ensures.) -/
+theorem add_makes_file_the_adders_list (t : Two) (h : Bool) (j : Job) (kw : Option Nat) (hd : t.cur.dir = true) :
+    (step2 fixed t (h, .add j kw)).2.res = .ok →
+    (step2 fixed t (h, .add j kw)).1.cur.disk = some ((step2 fixed t (h, .add j kw)).1.cur.mem.map toDict) := by
+  have key : ∀ t1 : Two, t1.cur.dir = true → (step fixed t1.cur (.add j kw)).2.res = .ok →
+      (step fixed t1.cur (.add j kw)).1.disk = some ((step fixed t1.cur (.add j kw)).1.mem.map toDict) := by
+    intro t1 h1 hk
+    have := addOp_okWritten (clearScript t1.cur) j kw (by simpa [clearScript] using h1)
+    simp only [step, clearScript] at hk ⊢
+    exact this hk
+  by_cases hs : h = t.who
+  · simpa [step2, hs] using key t hd
+  · simpa [step2, hs] using key (switch fixed t) (switch_dir t hd)
+
+/-- non-vacuity of the hypothesis: right after the first constructor the directory exists -/
+example (dir : Bool) : (init2 fixed dir).cur.dir = true := by cases dir <;> rfl
 
 /-- the positive statements fail without the discipline -/
 theorem handover_without_reopen_fails :
